@@ -30,6 +30,16 @@ def main():
     cfg["coordinator"]["agents"]["Attacker"]["goal"]["known_hosts"] = ["1.1.1.1"]
     cfg["coordinator"]["agents"]["Defender"]["goal"]["known_data"] = {"1.1.1.1": [["x", "y"]]}
     os.chdir(nsgenv.BUILD)
+    # a first, throw-away start tells which hosts are random-start candidates in this scenario; the
+    # probed configuration then mixes fixed hosts (one of them a start candidate), 'random' and known hosts
+    d0 = nsgenv.start(cfg, seed=seed)
+    d0.g._initialize()
+    cands = sorted(str(h) for h in d0.g.hosts_to_start)
+    others = sorted(str(h) for h in d0.g._ip_to_hostname if str(h) not in cands)
+    d0.close()
+    sp = cfg["coordinator"]["agents"]["Attacker"]["start_position"]
+    sp["controlled_hosts"] = ([others[0]] if others else []) + cands[:2] + ["random"]
+    sp["known_hosts"] = others[1:4]
     d = nsgenv.start(cfg, seed=seed)
     g = d.g
     transcript = []
